@@ -284,7 +284,19 @@ class TrS:
             return b + [(t, "sv_getattr x %s %s" % (o, E.pstr(e.attr)))], t
         if isinstance(e, ast.Subscript):
             if isinstance(e.slice, ast.Slice):
-                raise Decline("slice")
+                if e.slice.step is not None:
+                    raise Decline("slice-with-step")
+                b1, c = self.val(e.value)
+                bounds = []
+                for x in (e.slice.lower, e.slice.upper):
+                    if x is None:
+                        bounds.append("None")
+                    else:
+                        bx, ax = self.val(x)
+                        b1 = b1 + bx
+                        bounds.append("(Some %s)" % ax)
+                t = self.fresh()
+                return b1 + [(t, "PyOpsVersioned.py_slice %s %s %s" % (c, bounds[0], bounds[1]))], t
             b1, c = self.val(e.value)
             b2, k = self.val(e.slice)
             t = self.fresh()
@@ -371,20 +383,56 @@ class TrS:
                         and isinstance(e.args[0].value, str):
                     t = self.fresh()
                     return [(t, "(b <- %s ;; Ok (PBool b))" % self.cond(e))], t
+                if m == "split" and len(e.args) == 1:
+                    b, o = self.val(f.value)
+                    b2, atoms = self.vals(e.args)
+                    t = self.fresh()
+                    return b + b2 + [(t, "PyOpsVersioned.py_str_split %s %s" % (o, atoms[0]))], t
+                if m in ("title", "upper") and not e.args:
+                    b, o = self.val(f.value)
+                    t = self.fresh()
+                    return b + [(t, "PyOpsMappers.m_str_%s %s" % (m, o))], t
+                if m == "join" and len(e.args) == 1:
+                    b, o = self.val(f.value)
+                    x = e.args[0]
+                    if isinstance(x, (ast.GeneratorExp, ast.ListComp)):
+                        # the consumer of the generator is join itself: the elements, in order
+                        b2, lst = self.comprehension(x)
+                    else:
+                        b2, lst = self.val(x)
+                    l, t = self.fresh(), self.fresh()
+                    return b + b2 + [(l, "py_iter %s" % lst), (t, "PyOpsMappers.m_str_join %s %s" % (o, l))], t
                 if not e.args:
                     # o.m(): a parameterless query method of an object, seen as the attribute "m()"
                     b, o = self.val(f.value)
                     t = self.fresh()
                     return b + [(t, "sv_getattr x %s %s" % (o, E.pstr(m + "()")))], t
             b, o = self.val(f.value)
+            star = self.star_only(e)
+            if star is not None:
+                b2, a = self.val(star)
+                l, t = self.fresh(), self.fresh()
+                return b + b2 + [(l, "py_iter %s" % a), (t, "sv_call_meth x %s %s %s" % (o, E.pstr(m), l))], t
             b2, atoms = self.plain_args(e)
             t = self.fresh()
             return b + b2 + [(t, "sv_call_meth x %s %s [%s]" % (o, E.pstr(m), "; ".join(atoms)))], t
         # a callable VALUE: a local, the result of another expression
         b, fa = self.val(f)
+        star = self.star_only(e)
+        if star is not None:
+            b2, a = self.val(star)
+            l, t = self.fresh(), self.fresh()
+            return b + b2 + [(l, "py_iter %s" % a), (t, "sv_call x %s %s" % (fa, l))], t
         b2, atoms = self.plain_args(e)
         t = self.fresh()
         return b + b2 + [(t, "sv_call x %s [%s]" % (fa, "; ".join(atoms)))], t
+
+    @staticmethod
+    def star_only(e):
+        """f(*a): the one starred argument, or None"""
+        if not e.keywords and len(e.args) == 1 and isinstance(e.args[0], ast.Starred):
+            return e.args[0].value
+        return None
 
     def call_named(self, e, name):
         t = self.fresh()
@@ -497,7 +545,7 @@ class TrS:
         saved, saved_owned = dict(self.env), set(self.owned)
         try:
             pat, pre = self.bind_target(g.target, kind)
-            if isinstance(e, ast.ListComp):
+            if isinstance(e, (ast.ListComp, ast.GeneratorExp)):
                 b, a = self.val(e.elt)
                 body = self.seq(b, "Ok (Some %s)" % a)
             else:
@@ -511,7 +559,7 @@ class TrS:
             self.env, self.owned = saved, saved_owned
         lam = "(fun %s => %s)" % (pat if kind != "pair" else "'" + pat, body)
         r = self.fresh("r")
-        if isinstance(e, ast.ListComp):
+        if isinstance(e, (ast.ListComp, ast.GeneratorExp)):
             return binds + [(r, "filterM %s %s" % (lam, lst))], "(PList %s)" % r
         return binds + [(r, "dictcompM %s %s []" % (lam, lst))], "(PDict %s)" % r
 
@@ -1219,7 +1267,7 @@ def render():
              "   to the hand-written model of Ser/Serialize.v wherever that model predicts. *)",
              "From Coq Require Import ZArith NArith String List. Import ListNotations.",
              "From TP Require Import Base.PyVal Base.PyOps Base.PyOps2 Base.PyObj Base.PyOpsFields Base.PyOpsSerialize.",
-             "From TP Require Base.PyOpsDerive.",
+             "From TP Require Base.PyOpsDerive Base.PyOpsVersioned Base.PyOpsMappers.",
              "Local Open Scope string_scope.", ""]
     status = {}
     try:
